@@ -6,7 +6,7 @@ from sa import props
 PROPS = sorted(props.PROPS)
 
 def one(seed):
-    seed = pathlib.Path(seed)
+    seed = pathlib.Path(seed).resolve()
     tmp = pathlib.Path(tempfile.mkdtemp(prefix="seedm_", dir="/tmp"))
     res = {}
     try:
@@ -29,6 +29,8 @@ with concurrent.futures.ThreadPoolExecutor(max_workers=8) as ex:
 out = {}
 for seed, res in results:
     name = "/".join(pathlib.Path(seed).parts[-2:])
+    if "_patch" in res:
+        print(name, res); continue
     caught = [p for p, (rc, _) in res.items() if rc == 1]
     errs = [p for p, (rc, _) in res.items() if rc not in (0, 1)] if "_patch" not in res else ["patch"]
     print(f"{name:28s} caught_by={caught} errors={errs}")
